@@ -772,7 +772,17 @@ func (e *contractEnv) NewContract(fn *ssa.Function) Contract {
 	if len(found) == 0 {
 		return Contract{Kind: CUnknown, Why: "no live return"}
 	}
-	// merge keeps CNil distinct
+	// A nil fall-back next to the sub-codecs' own New (first non-nil branch
+	// wins) is the sub-codec's New.
+	var nonNil []Contract
+	for _, f := range found {
+		if f.Kind != CNil {
+			nonNil = append(nonNil, f)
+		}
+	}
+	if len(nonNil) > 0 && nonNil[0].Kind == CSubNew {
+		found = nonNil
+	}
 	first := found[0]
 	for _, f := range found[1:] {
 		if f.String() != first.String() {
@@ -805,7 +815,7 @@ func (e *contractEnv) newValue(fn *ssa.Function, v ssa.Value, depth int) Contrac
 	case *ssa.Call:
 		cc := x.Common()
 		if cc.IsInvoke() && cc.Method.Name() == "New" && isCodecIface(e.P, cc.Value.Type()) {
-			if f, ok := recvFieldOf(fn, cc.Value); ok {
+			if f := codecFieldPath(fn, cc.Value); f != "" {
 				return Contract{Kind: CSubNew, Field: f}
 			}
 			return Contract{Kind: CUnknown, Why: "New of a codec that is not a receiver field"}
